@@ -11,7 +11,8 @@ TIE = []
 RULE = ('(list of FASTA files, some unreadable/unparsable, completion order sigma). A harness-owned executor completes the submitted futures one by '
         'one in the chosen order, stepped by a harness progress meter (both are public parameters of calc_file_signatures): all permutations of '
         'n <= 4 (quick) / 6 (thorough) files, with a failing file at every position; plus sequential mode and real thread / process pools with '
-        'skewed file sizes and 1..16 workers. The Lean model is instantiated with result(i) := the real single-file signature of file i. '
+        'skewed file sizes and 1..16 workers; several calls in one process with relative paths and the working directory changed in between, `link/../file` through a '
+        'symbolic link to a directory elsewhere, a named pipe among regular files. The Lean model is instantiated with result(i) := the real single-file signature of file i. '
         'Non-trivial = distinct case with >= 2 files whose completion order is not the file order.')
 TRUSTED = ['harness/props/c13.py + Driver/C13.lean', 'concurrent.futures: as_completed yields a future only after it has completed; Future.result re-raises']
 ASSUMPTIONS = ['real pools are sampled (their schedules cannot be enumerated); the controlled executor enumerates completion orders exhaustively']
@@ -147,6 +148,98 @@ def check_reuse(ctx, case):
 		sc.cleanup()
 
 
+def _feed_fifo(path, data):
+	"""one writer for one reader: blocks until somebody opens the FIFO for reading, writes, closes"""
+	def w():
+		try:
+			with open(path, 'wb') as f:
+				f.write(data)
+		except OSError:
+			pass
+	t = threading.Thread(target=w, daemon=True)
+	t.start()
+	return t
+
+
+def _release_fifo(path):
+	"""let a writer that was never read from, or a reader that waits for a writer, go"""
+	import os
+	for flags in (os.O_RDONLY | os.O_NONBLOCK, os.O_WRONLY | os.O_NONBLOCK):
+		try:
+			os.close(os.open(path, flags))
+		except OSError:
+			pass
+
+
+def check_paths(ctx, case):
+	"""inputs named in unusual but legal ways, over several calls in one process: relative paths with the working directory changed
+	between calls, `link/../file` where `link` is a symbolic link to a directory elsewhere, a named pipe among regular files"""
+	import os
+	import numpy as np
+	from gambit.kmers import KmerSpec
+	from gambit.seq import SequenceFile
+	from gambit.sigs.calc import calc_file_signatures, calc_file_signature
+	sc = dbutil.Scratch('gv_c13p_')
+	cwd0 = os.getcwd()
+	lines, pf = [], []
+	try:
+		kspec = KmerSpec(case.get('k', 4), case.get('prefix', 'AT'))
+		rng = __import__('random').Random(case['seed'])
+		dirs = {}
+		for dn in ('a', 'b'):
+			d = sc.subdir(dn)
+			dirs[dn] = d
+			for i in range(case['nfiles']):
+				dbutil.write_fasta(d / f's{i}.fasta', [dbutil.rand_dna(rng, rng.randint(40, 200))])
+			# link -> elsewhere/deep : `link/../s0.fasta` is elsewhere/s0.fasta, NOT <d>/s0.fasta
+			other = sc.subdir(dn + '_elsewhere')
+			(other / 'deep').mkdir()
+			for i in range(case['nfiles']):
+				dbutil.write_fasta(other / f's{i}.fasta', [dbutil.rand_dna(rng, rng.randint(40, 200))])
+			os.symlink(other / 'deep', d / 'link')
+		for step in case['steps']:
+			os.chdir(dirs[step['dir']])
+			rels = [(f'link/../s{i}.fasta' if step.get('dotdot') and i % 2 == 0 else f's{i}.fasta') for i in step['files']]
+			fifo = None
+			if step.get('fifo') is not None and step['mode'] in (None, 'threads'):
+				fifo = os.path.join(str(dirs[step['dir']]), f'pipe{len(lines)}.fasta')
+				os.mkfifo(fifo)
+				fdata = b'>p\n' + dbutil.rand_dna(rng, 150) + b'\n'
+				rels.insert(min(step['fifo'], len(rels)), os.path.basename(fifo))
+			mk = lambda: [SequenceFile(r, 'fasta', None if (fifo and r == os.path.basename(fifo)) else 'auto') for r in rels]
+			results = []
+			for f in mk():
+				w = _feed_fifo(fifo, fdata) if (fifo and str(f.path) == os.path.basename(fifo)) else None
+				try:
+					results.append(nats(calc_file_signature(kspec, f).tolist()))
+				except Exception:
+					results.append('E')
+				if w is not None:
+					_release_fifo(fifo); w.join(2)
+			w = _feed_fifo(fifo, fdata) if fifo else None
+			box = {}
+			def call():
+				try:
+					out = calc_file_signatures(kspec, mk(), concurrency=step['mode'], max_workers=step.get('workers'))
+					box['real'] = 'has-None' if any(s_ is None for s_ in out) else (natlists([np.asarray(s_).tolist() for s_ in out]) if len(out) else '_')
+				except Exception:
+					box['real'] = 'err'
+			if fifo:
+				t = threading.Thread(target=call, daemon=True); t.start(); t.join(20)
+				_release_fifo(fifo); w.join(2); t.join(5)
+				if 'real' not in box:
+					pf.append('the call did not finish with a named pipe among the inputs')
+					box['real'] = 'err'
+			else:
+				call()
+			lines.append(f'c13.run {";".join(results) if results else "_"} {nats(range(len(rels)))} {box["real"]}')
+		case['_nt'] = len(case['steps']) >= 2
+		return lines, pf
+	finally:
+		os.chdir(cwd0)
+		sc.cleanup()
+
+
 def check(ctx, case):
 	from gambit.kmers import KmerSpec
 	from gambit.sigs.calc import calc_file_signatures, calc_file_signature
@@ -154,6 +247,8 @@ def check(ctx, case):
 	import numpy as np
 	if case['mode'] == 'reuse-pool':
 		return check_reuse(ctx, case)
+	if case['mode'] == 'paths':
+		return check_paths(ctx, case)
 	sc = dbutil.Scratch('gv_c13_')
 	try:
 		kspec = KmerSpec(case.get('k', 4), case.get('prefix', 'AT'))
@@ -313,6 +408,21 @@ def run(ctx):
 				call[rng.randrange(n)] = {'kind': 'truncgz', 'contigs': [dbutil.rand_dna(rng, rng.randint(30, 200)).hex() for _ in range(rng.randint(1, 3))]}
 			calls.append(call)
 		sub({'files': [f for call in calls for f in call], 'calls': calls, 'mode': 'reuse-pool', 'workers': rng.choice([1, 1, 2])}, 'reuse-pool')
+	# unusual ways of naming inputs, over several calls in one process
+	for j in range(ctx.q(20, 150)):
+		if not ctx.time_left(0.93):
+			break
+		nf = rng.randint(2, 4)
+		steps = []
+		for c in range(rng.randint(2, 4)):
+			steps.append({'dir': rng.choice(['a', 'b']) if c else 'a', 'mode': rng.choice([None, 'threads', 'processes', 'processes']), 'workers': rng.choice([1, 2, 4]),
+			              'files': rng.sample(range(nf), rng.randint(1, nf)), 'dotdot': rng.random() < 0.4,
+			              'fifo': (rng.randint(0, 3) if rng.random() < 0.35 else None)})
+			if steps[-1]['fifo'] is not None:
+				steps[-1]['mode'] = rng.choice([None, 'threads'])
+		if j % 2 == 0:
+			steps[0]['mode'] = 'processes'; steps[1]['dir'] = 'b'; steps[1]['mode'] = 'processes'; steps[1]['workers'] = steps[0]['workers']
+		sub({'files': [], 'mode': 'paths', 'steps': steps, 'nfiles': nf, 'seed': rng.randrange(10 ** 6)}, 'path-forms')
 	# sequential and real pools
 	for j in range(ctx.q(70, 400)):
 		if not ctx.time_left(0.95):
